@@ -231,6 +231,17 @@ def verify (sm : Int → Pt Nat → Pt Nat) (H : Option HashFn) (Q : Pt Nat) (si
     | .error e => .error e
     | .ok e => .ok (P.verifyCore sm Q e r s)
 
+/-- `PrivateKey.Sign(message, hFunc)` with the nonce `k` as a parameter (the Go code draws it from an AES-CTR stream keyed by
+    SHA-512(scalar ‖ entropy ‖ message)): `r = x([k]G) mod n`, `s = k⁻¹(e + r·d) mod n`, output `r ‖ s`, each component in
+    exactly `frBytes` big-endian bytes (leading zero bytes included). `r = 0` or `s = 0` makes Go draw another nonce. -/
+def sign (sm : Int → Pt Nat → Pt Nat) (H : Option HashFn) (d k : Nat) (msg : Bytes) : Except Err Bytes :=
+  match P.msgInt H msg with
+  | .error e => .error e
+  | .ok e =>
+    let r := P.xModN (sm (Int.ofNat k) P.G)
+    let s := invE P.n k * (e + r * d) % P.n
+    if r = 0 ∨ s = 0 then .error .zero else .ok (P.sigBytes r s)
+
 /-- `[n]Q = O ∧ Q on the curve` -/
 def inSubgroup (sm : Int → Pt Nat → Pt Nat) (Q : Pt Nat) : Bool := P.E.onCurve Q && (sm (Int.ofNat P.n) Q).isNone
 
@@ -494,6 +505,19 @@ def verify (sm : Nat → Nat × Nat → Nat × Nat) (sq : Nat → Option Nat) (H
         if ¬ P.onCurve (P.lhs sm s) then .error .notOnCurve
         else if ¬ P.onCurve (P.rhs sm A R hram) then .error .notOnCurve
         else .ok (P.equation sm A R s hram)
+
+/-- `PrivateKey.Sign(message, hFunc)` with the nonce `r` as a parameter (the Go code takes the first `size` bytes of
+    blake2b-512(randSrc ‖ message)): `R = [r]B`, `S = (H(R,A,M)·a + r) mod ℓ`, output `compress R ‖ S` with `S` in exactly
+    `size` big-endian bytes (leading zero bytes included) -/
+def sign (sm : Nat → Nat × Nat → Nat × Nat) (H : Option HashFn) (A : Nat × Nat) (a r : Nat) (msg : Bytes) : Except Err Bytes :=
+  match H with
+  | none => .error .hashNeeded
+  | some h =>
+    let R := sm r P.B
+    if ¬ P.onCurve R then .error .notOnCurve else
+    match liftH (h (P.challengeWrites R A msg)) with
+    | .error e => .error e
+    | .ok hb => .ok (P.sigBytes R ((beToNat hb * a + r) % P.order))
 
 end EdParams
 
